@@ -189,6 +189,8 @@ def check(ctx):
               f"deserialization reads the discriminator under `{vals[0]}` but serialization writes it under `{vals[1]}`: a serialized discriminated value cannot be deserialized back", None, None, detail=f"both `{vals[0]}`")
     if vals[0] != vals[1]:
         ctx.findings[-1].file = "apischema/serialization/__init__.py"
+    from .c13 import discriminator_key_if_absent
+    discriminator_key_if_absent(ctx, "C05.R3")
     ob = model.func(f"{OV}.ObjectVisitor._object")
     ctx.check("return self.object(tp, fields)" in norm(ob.node), "C05.R3", ob.qualname, ob.node.body[-1], "_object no longer hands the filtered / aliased field list to object()", ob, ob.node, detail="self.object(tp, fields)")
 
@@ -206,5 +208,6 @@ def mutants(mb):
     mb.add_text("annotated-conversion-crossed", "apischema/conversions/visitor.py", "    ) -> Optional[AnyConversion]:\n        return annotation.serialization", "    ) -> Optional[AnyConversion]:\n        return annotation.deserialization", "C05.R2", "_annotated_conversion")
     mb.add_text("ser-refetches-fields", "apischema/serialization/__init__.py", "        typed_dict = is_typed_dict(cls)\n        for field in fields:", "        typed_dict = is_typed_dict(cls)\n        fields = list(object_fields(tp, serialization=True).values())\n        for field in fields:", "C05.R3", "fields")
     mb.add_text("discriminator-key-raw", "apischema/serialization/__init__.py", "                        self.aliaser(discriminator.alias),\n", "                        discriminator.alias,\n", "C05.R3", "discriminator-key")
+    mb.add_text("discriminator-key-overwrites", "apischema/serialization/methods.py", "        if isinstance(res, dict) and self.alias not in res:\n            res[self.alias] = self.key", "        if isinstance(res, dict):\n            res[self.alias] = self.key", "C05.R3", "DiscriminatedAlternative")
     mb.add_text("neg-typing-list", S, "    deserializer(Conversion(deque, source=list[T], target=deque[T]))  # type: ignore", "    deserializer(Conversion(deque, source=List[T], target=deque[T]))  # type: ignore", negative=True)
     mb.out[-1].new_src = mb.out[-1].new_src.replace("from typing import TypeVar\n", "from typing import List, TypeVar\n", 1)
